@@ -77,10 +77,26 @@ theorem keeps_more (k : Nat) (acc : Bytes) : Keeps (readCharS.more k acc) := by
     apply keeps_bind keeps_termRead
     intro d; exact ih _
 
+theorem keeps_readKey_more (k : Nat) : Keeps (readKey.more k) := by
+  induction k with
+  | zero => unfold readKey.more; exact keeps_pure _
+  | succ k ih =>
+    unfold readKey.more
+    apply keeps_bind keeps_termRead
+    intro d; exact ih
+
+/-- `led_readkey()` keeps the text and the cursor, like `termRead` -/
+theorem keeps_readKey : Keeps readKey := by
+  unfold readKey
+  have := keeps_readKey_more
+  repeat' keeps_step
+  exact this _
+
 theorem keeps_readCharS (c : Int) (k : Nat) : Keeps (readCharS c k) := by
   unfold readCharS
   have := keeps_more
-  repeat' keeps_step
+  have hk := keeps_readKey
+  repeat' first | exact hk | keeps_step
   exact this _ _
 
 theorem keeps_unmodelled : Keeps Vi.unmodelled := keeps_modify fun _ => ⟨rfl, rfl, rfl⟩
@@ -96,7 +112,9 @@ theorem keeps_ledLine_go (post : Bytes) (aiMax : Nat) (insertMode prefEmpty : Bo
     unfold ledLine.go
     have hr := keeps_readCharS
     have hu := keeps_unmodelled
+    have hk := keeps_readKey
     repeat' first
+      | exact hk
       | exact ih _ _ _
       | exact h1 _
       | exact h3 _ _ _
